@@ -19,6 +19,9 @@ func newErr(st *State, tag string, chain ...value) value {
 	return iface{t: errObjType, v: &opaque{tag: tag, id: st.opaqueN, info: chain}}
 }
 
+// newErrIs: an error that errors.Is-matches the named foreign sentinel (not needed by orbiter today).
+func newErrIs(st *State, tag, sentinel string) value { return newErr(st, tag) }
+
 func errChain(e value) []value {
 	if i, ok := e.(iface); ok && i.t == errObjType {
 		if c, ok := i.v.(*opaque).info.([]value); ok {
@@ -55,6 +58,68 @@ func makeIntrinsics() map[string]intrinsic {
 			panic(fmt.Sprintf("harness asks for bound %q which its spec does not define", name))
 		}
 		return BVConstI(int64(n), 64)
+	}
+
+	// ---- Z: unbounded specification integers (SMT Int) ------------------------------------------------
+	zt := func(v value) *Term { return v.(*zV).t }
+	m[V+"ZOf"] = func(st *State, fr *frame, a []value, cc *ssa.CallCommon) value {
+		b := a[0].(*bigV)
+		if b.isNil {
+			panic(pathEnd{kind: "panic", msg: "verif.ZOf of a nil math.Int"})
+		}
+		return &zV{b.v}
+	}
+	m[V+"ZInt"] = func(st *State, fr *frame, a []value, cc *ssa.CallCommon) value {
+		t := a[0].(*Term)
+		if t.IsConst() {
+			return &zV{IntConst(t.Signed())}
+		}
+		// signed 64-bit to Int
+		n := BV2Nat(t)
+		return &zV{Ite(BVCmp("bvslt", t, BVConstI(0, 64)), IntBin("-", n, IntConst(new(big.Int).Lsh(big.NewInt(1), 64))), n)}
+	}
+	m[V+"ZU64"] = func(st *State, fr *frame, a []value, cc *ssa.CallCommon) value {
+		t := a[0].(*Term)
+		if t.Op == "zext" {
+			t = t.Args[0]
+		}
+		return &zV{BV2Nat(t)}
+	}
+	m[V+"ZAdd"] = func(st *State, fr *frame, a []value, cc *ssa.CallCommon) value { return &zV{IntBin("+", zt(a[0]), zt(a[1]))} }
+	m[V+"ZSub"] = func(st *State, fr *frame, a []value, cc *ssa.CallCommon) value { return &zV{IntBin("-", zt(a[0]), zt(a[1]))} }
+	m[V+"ZMul"] = func(st *State, fr *frame, a []value, cc *ssa.CallCommon) value { return &zV{IntBin("*", zt(a[0]), zt(a[1]))} }
+	m[V+"ZLt"] = func(st *State, fr *frame, a []value, cc *ssa.CallCommon) value { return IntCmp("<", zt(a[0]), zt(a[1])) }
+	m[V+"ZLe"] = func(st *State, fr *frame, a []value, cc *ssa.CallCommon) value { return IntCmp("<=", zt(a[0]), zt(a[1])) }
+	m[V+"ZEq"] = func(st *State, fr *frame, a []value, cc *ssa.CallCommon) value { return Eq(zt(a[0]), zt(a[1])) }
+	m[V+"ZPow2"] = func(st *State, fr *frame, a []value, cc *ssa.CallCommon) value {
+		n, _ := asConcreteInt(a[0])
+		return &zV{IntConst(new(big.Int).Lsh(big.NewInt(1), uint(n)))}
+	}
+	m[V+"ZFloorDiv"] = func(st *State, fr *frame, a []value, cc *ssa.CallCommon) value {
+		k, ok := asConcreteInt(a[1])
+		if !ok || k <= 0 {
+			panic("ZFloorDiv needs a positive constant divisor")
+		}
+		x := zt(a[0])
+		if x.IsConst() {
+			q, _ := new(big.Int).DivMod(x.C, big.NewInt(int64(k)), new(big.Int))
+			return &zV{IntConst(q)}
+		}
+		return &zV{mk("div", SInt, x, IntConst(big.NewInt(int64(k))))}
+	}
+	m[V+"Uint64"] = func(st *State, fr *frame, a []value, cc *ssa.CallCommon) value {
+		label, _ := a[0].(*Str).Concrete()
+		x := st.freshVar(label, BV(64))
+		st.draws = append(st.draws, drawRec{label, "uint64", []*Term{x}})
+		return x
+	}
+	m[V+"ZeroBytes"] = func(st *State, fr *frame, a []value, cc *ssa.CallCommon) value {
+		label, _ := a[0].(*Str).Concrete()
+		n, _ := asConcreteInt(a[1])
+		l := st.freshVar(label+"_len", BV(64))
+		st.assume(BVCmp("bvule", l, BVConstI(int64(n), 64)))
+		st.draws = append(st.draws, drawRec{label, "len", []*Term{l}})
+		return &Str{Len: l}
 	}
 	m[V+"Uint32"] = func(st *State, fr *frame, a []value, cc *ssa.CallCommon) value {
 		label, _ := a[0].(*Str).Concrete()
@@ -332,7 +397,10 @@ func makeIntrinsics() map[string]intrinsic {
 		}
 		return iface{}
 	}
-	m[V+"RealCodec"] = func(st *State, fr *frame, a []value, cc *ssa.CallCommon) value { return iface{} }
+	m[V+"RealCodec"] = func(st *State, fr *frame, a []value, cc *ssa.CallCommon) value {
+		return iface{t: errObjType, v: &opaque{tag: "codec"}}
+	}
+	m[V+"SDKContext"] = func(st *State, fr *frame, a []value, cc *ssa.CallCommon) value { return &opaque{tag: "sdkctx"} }
 	m[V+"NewEnv"] = func(st *State, fr *frame, a []value, cc *ssa.CallCommon) value {
 		return tuple{iface{t: errObjType, v: &opaque{tag: "ctx"}}, iface{t: errObjType, v: &opaque{tag: "storesvc"}}}
 	}
@@ -497,6 +565,17 @@ func makeIntrinsics() map[string]intrinsic {
 		st.mayPanic(overflow(r), "math.Int overflow (AddRaw)", fr, cc.Pos())
 		return &bigV{v: r}
 	}
+	safeAddSub := func(op string) intrinsic {
+		return func(st *State, fr *frame, a []value, cc *ssa.CallCommon) value {
+			r := IntBin(op, bi(st, a[0], fr, "Safe"+op), bi(st, a[1], fr, "Safe"+op))
+			if st.decide(overflow(r)) {
+				return tuple{&bigV{isNil: true}, newErr(st, "ErrIntOverflow")}
+			}
+			return tuple{&bigV{v: r}, iface{}}
+		}
+	}
+	m[MI+"SafeAdd"] = safeAddSub("+")
+	m[MI+"SafeSub"] = safeAddSub("-")
 	m[MI+"SafeMul"] = func(st *State, fr *frame, a []value, cc *ssa.CallCommon) value {
 		r := IntBin("*", bi(st, a[0], fr, "SafeMul"), bi(st, a[1], fr, "SafeMul"))
 		if st.decide(overflow(r)) {
@@ -531,17 +610,26 @@ func makeIntrinsics() map[string]intrinsic {
 		if d, isDec := a[0].(*Str).Blob.(decBlob); isDec {
 			return tuple{&bigV{v: d.v}, True}
 		}
-		// functional: the same string object parses to the same result on this path
-		if st.parseCache == nil {
-			st.parseCache = map[*Str]value{}
+		if cs, isC := a[0].(*Str).Concrete(); isC && a[0].(*Str).Blob == nil {
+			// exactly what cosmossdk.io/math does: big.Int.SetString(s, 0) + 256-bit limit
+			bi, ok := new(big.Int).SetString(cs, 0)
+			if !ok || bi.BitLen() > 256 {
+				return tuple{&bigV{isNil: true}, False}
+			}
+			return tuple{&bigV{v: IntConst(bi)}, True}
 		}
-		if r, ok := st.parseCache[a[0].(*Str)]; ok {
+		// functional: the same string content parses to the same result on this path
+		if st.parseCache == nil {
+			st.parseCache = map[string]value{}
+		}
+		key := strKey(a[0].(*Str))
+		if r, ok := st.parseCache[key]; ok {
 			return r
 		}
 		var res value
 		defer func() {
 			if res != nil {
-				st.parseCache[a[0].(*Str)] = res
+				st.parseCache[key] = res
 			}
 		}()
 		// prototype: uninterpreted (ok, v) per call; the full engine keys this on the argument
@@ -745,7 +833,7 @@ func makeIntrinsics() map[string]intrinsic {
 		n, _ := asConcreteInt(a[1])
 		return &Str{Len: st.freshVar("memo_len", BV(64)), Blob: memoBlob{a[0], n}}
 	}
-	m[V+"DecodeMemo"] = func(st *State, fr *frame, a []value, cc *ssa.CallCommon) value {
+	m[V+"DecodeJSON"] = func(st *State, fr *frame, a []value, cc *ssa.CallCommon) value {
 		mb, ok := a[0].(*Str).Blob.(memoBlob)
 		if !ok {
 			return newErr(st, "json")
@@ -868,6 +956,7 @@ func makeIntrinsics() map[string]intrinsic {
 		}
 		return out
 	}
+	addCollections(m)
 	return m
 }
 
@@ -919,6 +1008,26 @@ func (st *State) decimal(x *Term) *Str {
 	st.assume(Eq(sum, Resize(x, ww, false)))
 	result = &Str{B: digits, Len: BVConstI(int64(nd), 64)}
 	return result
+}
+
+// strKey identifies a string value by its content terms (hash-consed), for functional summaries.
+func strKey(s *Str) string {
+	var sb strings.Builder
+	fmt.Fprintf(&sb, "L%d", s.Len.id)
+	if s.Len.IsConst() {
+		fmt.Fprintf(&sb, "=%s", s.Len.C)
+	}
+	for _, b := range s.B {
+		if b.IsConst() {
+			fmt.Fprintf(&sb, ",c%s", b.C)
+		} else {
+			fmt.Fprintf(&sb, ",%d", b.id)
+		}
+	}
+	if s.Blob != nil {
+		fmt.Fprintf(&sb, "|%T%v", s.Blob, s.Blob)
+	}
+	return sb.String()
 }
 
 func decodeModel(m map[string]string) map[string]string {
